@@ -42,6 +42,18 @@ class DetectVarNames( ast.NodeVisitor ):
         return None
     return ( "expr", compile( ast.Expression( v ), "<index>", "eval" ) )
 
+  def _self_attr( self, v ):
+    """ ("attr", names) if v is s.a.b ... : an attribute of the component
+    used as an index or slice bound. It is a constant for the instances whose
+    attribute is an int / Bits value, not a signal. """
+    names = []
+    while isinstance( v, ast.Attribute ):
+      names.append( v.attr )
+      v = v.value
+    if isinstance( v, ast.Name ) and v.id == 's' and names:
+      return ( "attr", tuple( names[::-1] ) )
+    return None
+
   # Helper function to get the full name containing "s"
 
   def _get_full_name_up_to_py38( self, input_node ):
@@ -76,6 +88,9 @@ class DetectVarNames( ast.NodeVisitor ):
         elif x in self.globals: low = (False, x)
       elif self._const_expr( lower ) is not None:
         low = self._const_expr( lower )
+      elif self._self_attr( lower ) is not None:
+        self.visit( lower )
+        low = self._self_attr( lower )
 
       if upper is None:
         up = None
@@ -88,6 +103,9 @@ class DetectVarNames( ast.NodeVisitor ):
         elif x in self.globals: up = (False, x)
       elif self._const_expr( upper ) is not None:
         up = self._const_expr( upper )
+      elif self._self_attr( upper ) is not None:
+        self.visit( upper )
+        up = self._self_attr( upper )
 
       if low != "?" and up != "?":
         slices.append( slice(low, up) )
@@ -107,6 +125,8 @@ class DetectVarNames( ast.NodeVisitor ):
 
         if isinstance( v, ast.Attribute ): # s.sel, may be constant
           self.visit( v )
+          if self._self_attr( v ) is not None:
+            n = self._self_attr( v )
         elif isinstance( v, ast.Num ):
           n = v.n
         elif isinstance( v, ast.Name ):
@@ -192,6 +212,9 @@ class DetectVarNames( ast.NodeVisitor ):
         elif x in self.globals: low = (False, x)
       elif self._const_expr( lower ) is not None:
         low = self._const_expr( lower )
+      elif self._self_attr( lower ) is not None:
+        self.visit( lower )
+        low = self._self_attr( lower )
 
       if upper is None:
         up = None
@@ -204,6 +227,9 @@ class DetectVarNames( ast.NodeVisitor ):
         elif x in self.globals: up = (False, x)
       elif self._const_expr( upper ) is not None:
         up = self._const_expr( upper )
+      elif self._self_attr( upper ) is not None:
+        self.visit( upper )
+        up = self._self_attr( upper )
 
       if low != "?" and up != "?":
         slices.append( slice(low, up) )
@@ -223,6 +249,8 @@ class DetectVarNames( ast.NodeVisitor ):
 
         if isinstance( v, ast.Attribute ): # s.sel, may be constant
           self.visit( v )
+          if self._self_attr( v ) is not None:
+            n = self._self_attr( v )
         elif isinstance( v, ast.Num ):
           n = v.n
         elif isinstance( v, ast.Name ):
